@@ -4,6 +4,7 @@ package server
 
 import (
 	"fmt"
+	"os"
 
 	mux "github.com/cbeuw/Cloak/internal/multiplex"
 	"github.com/cbeuw/Cloak/internal/server/usermanager"
@@ -129,10 +130,12 @@ func (m *memManager) UploadStatus(s []usermanager.StatusUpdate) ([]usermanager.S
 	}
 	return out, nil
 }
-func (m *memManager) ListAllUsers() ([]usermanager.UserInfo, error)       { return nil, nil }
-func (m *memManager) GetUserInfo([]byte) (usermanager.UserInfo, error)   { return usermanager.UserInfo{}, nil }
-func (m *memManager) WriteUserInfo(usermanager.UserInfo) error           { return nil }
-func (m *memManager) DeleteUser(uid []byte) error                        { delete(m.users, arr16(uid)); return nil }
+func (m *memManager) ListAllUsers() ([]usermanager.UserInfo, error) { return nil, nil }
+func (m *memManager) GetUserInfo([]byte) (usermanager.UserInfo, error) {
+	return usermanager.UserInfo{}, nil
+}
+func (m *memManager) WriteUserInfo(usermanager.UserInfo) error { return nil }
+func (m *memManager) DeleteUser(uid []byte) error              { delete(m.users, arr16(uid)); return nil }
 
 var srvKey = [32]byte{9, 8, 7, 6, 5, 4, 3, 2, 1, 0, 11, 12, 13, 14, 15, 16, 17, 18, 19, 20, 21, 22, 23, 24, 25, 26, 27, 28, 29, 30, 31, 32}
 
@@ -157,3 +160,5 @@ func quiesce() { time.Sleep(time.Millisecond) }
 
 var _ = fmt.Sprint
 var _ = vx.P
+
+func removeFile(p string) { os.Remove(p) }
